@@ -166,6 +166,26 @@ func init() {
 		"time.Unix":         sumTimeUnix,
 		"time.Date":         sumTimeDate,
 		"(time.Time).Weekday": sumWeekday,
+		"time.FixedZone": func(fr *frame, a []value) value {
+			p := new(value)
+			*p = structure{a[0].(Str), fr.m.ctx.Resize(a[1].(*Term), 64, true)}
+			if fr.m.wsActive {
+				fr.m.registerFresh(p)
+			}
+			return p
+		},
+		"(time.Time).UTC": func(fr *frame, a []value) value {
+			st := a[0].(structure)
+			return structure{st[0], st[1], (*value)(nil)}
+		},
+		"(time.Time).Local": func(fr *frame, a []value) value {
+			st := a[0].(structure)
+			return structure{st[0], st[1], fr.m.localLoc()}
+		},
+		"(time.Time).In": func(fr *frame, a []value) value {
+			st := a[0].(structure)
+			return structure{st[0], st[1], a[1]}
+		},
 		"(time.Time).Sub":     sumTimeSub,
 		"math/rand.Float32": sumRandFloat32,
 
@@ -552,10 +572,24 @@ func mathUF(name string, f func(float64, float64) float64) extFn {
 func (m *Machine) localLoc() *value {
 	if m.timeLocal == nil {
 		p := new(value)
-		*p = structure{mkStr("Local")}
+		*p = structure{mkStr("Local"), mkInt(64, 0)} // the process zone is modelled as UTC (replays run with TZ=UTC)
 		m.timeLocal = p
 	}
 	return m.timeLocal
+}
+
+// locOffset: seconds east of UTC of a modelled *time.Location (nil = UTC).
+func (m *Machine) locOffset(loc value) *Term {
+	p, _ := loc.(*value)
+	if p == nil {
+		return mkInt(64, 0)
+	}
+	if st, ok := (*p).(structure); ok && len(st) == 2 {
+		if t, ok := st[1].(*Term); ok {
+			return t
+		}
+	}
+	panic(unsupported("time.Location that was not built by time.FixedZone / time.Local / time.UTC"))
 }
 
 func (m *Machine) mkTime(sec, nsec *Term) value {
@@ -597,36 +631,64 @@ func sumTimeNow(fr *frame, a []value) value {
 	return m.mkTime(sec, mkInt(64, 0))
 }
 
-// time.Date: uninterpreted constructor of the Unix second from its arguments.
+// time.Date. With concrete year/month/day the Unix second is exact and linear in
+// the (possibly symbolic) hour/minute/second and in the zone offset; otherwise
+// an uninterpreted constructor of the Unix second from its arguments.
 func sumTimeDate(fr *frame, a []value) value {
 	m := fr.m
+	c := m.ctx
 	allConst := true
 	var args []*Term
 	for i := 0; i < 7; i++ {
-		t := m.simplify(a[i].(*Term))
+		t := m.simplify(c.Resize(a[i].(*Term), 64, true))
 		if !t.IsConst() {
 			allConst = false
 		}
 		args = append(args, t)
 	}
+	off := m.locOffset(a[7])
+	loc := a[7]
+	mk := func(sec, nsec *Term) value {
+		t := m.mkTime(c.Sub(sec, off), nsec).(structure)
+		t[2] = loc
+		return t
+	}
 	if allConst {
 		d := time.Date(int(args[0].Int()), time.Month(args[1].Int()), int(args[2].Int()), int(args[3].Int()),
 			int(args[4].Int()), int(args[5].Int()), int(args[6].Int()), time.UTC)
-		return m.mkTime(mkInt(64, d.Unix()), mkInt(64, int64(d.Nanosecond())))
+		return mk(mkInt(64, d.Unix()), mkInt(64, int64(d.Nanosecond())))
+	}
+	if args[0].IsConst() && args[1].IsConst() && args[2].IsConst() && args[6].IsConst() && args[6].Int() >= 0 && args[6].Int() < 1000000000 {
+		base := time.Date(int(args[0].Int()), time.Month(args[1].Int()), int(args[2].Int()), 0, 0, 0, 0, time.UTC).Unix()
+		small := func(t *Term) bool {
+			return m.branch(c.And(c.Sle(mkInt(64, -1<<31), t), c.Sle(t, mkInt(64, 1<<31))))
+		}
+		if small(args[3]) && small(args[4]) && small(args[5]) {
+			sec := c.Add(mkInt(64, base), c.Add(c.Mul(args[3], mkInt(64, 3600)), c.Add(c.Mul(args[4], mkInt(64, 60)), args[5])))
+			return mk(sec, args[6])
+		}
 	}
 	sec := m.ctx.UF("uf_date", SBV64, args...)
-	return m.mkTime(sec, mkInt(64, 0))
+	return mk(sec, mkInt(64, 0))
 }
 
+// (time.Time).Weekday: exact, from the seconds since the Unix epoch shifted by the zone offset.
 func sumWeekday(fr *frame, a []value) value {
 	m := fr.m
+	c := m.ctx
 	st := a[0].(structure)
-	ext := m.simplify(st[1].(*Term))
-	if ext.IsConst() {
-		sec := ext.Int() - unixToInternal
-		return mkInt(64, int64(time.Unix(sec, 0).UTC().Weekday()))
+	off := m.locOffset(st[2])
+	t := m.simplify(c.Add(c.Sub(st[1].(*Term), mkInt(64, unixToInternal)), off))
+	if t.IsConst() {
+		return mkInt(64, int64(time.Unix(t.Int(), 0).UTC().Weekday()))
 	}
-	return m.ctx.UF("uf_weekday", SBV64, ext)
+	const week = 7 * 86400
+	const shift = week << 32 // a multiple of a week: keeps the dividend non-negative
+	if !m.branch(c.And(c.Slt(mkInt(64, -shift), t), c.Slt(t, mkInt(64, shift)))) {
+		return m.ctx.UF("uf_weekday", SBV64, t)
+	}
+	days := c.UDiv(c.Add(t, mkInt(64, shift)), mkInt(64, 86400))
+	return c.URem(c.Add(days, mkInt(64, 4)), mkInt(64, 7))
 }
 
 func sumRandFloat32(fr *frame, a []value) value {
